@@ -83,16 +83,20 @@ LegacyUnion(i, v, r) ==
                      [j \in 1..Len(@) |-> IF j > held[v].off /\ j <= held[v].off + Len(merged) THEN sorted[j - held[v].off] ELSE @[j]]]
      ELSE arrays
 
+\* C03 lets an expression that uses a reverse axis (and is not a union) return its nodes in ascending
+\* or in descending document order: the model admits both implementations
+Orders(i) == IF UsesReverseAxis(Exprs[i]) /\ Exprs[i].op # "union" THEN {"asc", "dsc"} ELSE {"asc"}
 ExecRet(t) ==
   /\ pend[t] # <<>>
-  /\ LET c == pend[t][1]
+  /\ \E ord \in Orders(pend[t][1].e) :
+     LET c == pend[t][1]
          r == Value(c.e, c.v, c.w)
          base == IF LegacyUnionInPlace /\ c.e \in {3, 4} /\ r.t = "ns" THEN LegacyUnion(c.e, c.v, r) ELSE arrays
      IN /\ IF r.t = "ns"
-           THEN /\ arrays' = Append(base, Asc(r.v))
+           THEN /\ arrays' = Append(base, IF ord = "asc" THEN Asc(r.v) ELSE Dsc(r.v))
                 /\ held' = Append(held, [arr |-> Len(arrays) + 1, off |-> 0, len |-> Cardinality(r.v)])
            ELSE /\ arrays' = base /\ held' = held
-        /\ steps' = Append(steps, [op |-> "exec", thr |-> t, e |-> c.e, v |-> c.v, w |-> c.w, res |-> JV(r)])
+        /\ steps' = Append(steps, [op |-> "exec", thr |-> t, e |-> c.e, v |-> c.v, w |-> c.w, ord |-> ord, res |-> JV(r)])
   /\ pend' = [pend EXCEPT ![t] = <<>>]
 
 Reslice(h, lo, hi) ==
@@ -118,11 +122,11 @@ Frame == [][\A a \in 1..Len(arrays) : arrays'[a] = arrays[a]]_vars
 \* hence every held node-set keeps its contents and order
 HeldStable == [][\A h \in 1..Len(held) : held'[h] = held[h]]_vars
 \* results are duplicate-free and in document order
-ResultsCanonical == \A a \in 1..Len(arrays) : IsAsc(arrays[a])
+ResultsCanonical == \A a \in 1..Len(arrays) : IsAsc(arrays[a]) \/ IsDsc(arrays[a])
 \* a returning call yields the serial value whatever else is in flight (C14)
 SerialValue == [][\A t \in 1..Threads : (pend[t] # <<>> /\ pend'[t] = <<>>) =>
                      steps'[Len(steps')].res = JV(Value(pend[t][1].e, pend[t][1].v, pend[t][1].w))]_vars
 
 Quiescent == \A t \in 1..Threads : pend[t] = <<>>
-Emit == (EmitOn /\ Quiescent /\ Len(steps) = MaxSteps) => PrintT(ToJson([fam |-> "C13.history", doc |-> SDoc, exprs |-> Exprs, steps |-> steps]))
+Emit == (EmitOn /\ Quiescent /\ Len(steps) = MaxSteps) => PrintT(ToJson([fam |-> IF Threads = 1 THEN "C13.history" ELSE "C14.workload", doc |-> SDoc, exprs |-> Exprs, steps |-> steps]))
 =============================================================================
